@@ -5,14 +5,23 @@
 //! returns Err somewhere, or all probe results are identical to the unmutated baseline; never a
 //! panic. For wal.log: Wal::last_pending_ops of the mutant is a prefix of the baseline list and a
 //! new writer + commit yields exactly the contents of some intact prefix of the pending log.
+//! Second mode, "damage under a live handle": the intact image is opened, reader() + probes must
+//! equal the baseline, THEN the mutated bytes are written into the same storage and reader() is
+//! called again on the SAME Index handle: Err or identical results, never a panic.
+//! All mutants are evaluated in worker subprocesses (this binary re-invoked with
+//! `--replay <batch file>`), so that an abort (failed giant allocation, stack overflow) or a hang
+//! caused by parsing damaged bytes is attributed to the exact mutant instead of killing the check.
 
 use std::collections::{BTreeMap, BTreeSet};
+use std::io::{BufRead, BufReader, Write};
 use std::path::{Path, PathBuf};
-use std::sync::atomic::{AtomicBool, AtomicU64, Ordering};
+use std::process::{Command, Stdio};
+use std::sync::atomic::{AtomicBool, AtomicUsize, Ordering};
+use std::sync::mpsc;
 use std::sync::Arc;
+use std::time::{Duration, Instant};
 
 use parking_lot::Mutex;
-use rayon::prelude::*;
 use serde_json::{json, Value};
 
 use searchlite_core::api::types::StorageType;
@@ -226,6 +235,43 @@ fn observe(img: &Image, st: Arc<InMemoryStorage>, probes: &[Value]) -> Seen {
   }
 }
 
+/// Damage under a live handle: open the intact image, read it once (must equal the baseline), write
+/// the damaged bytes into the same storage, then open another reader from the SAME handle.
+fn observe_live(img: &Image, base_results: &[Value], file_idx: usize, bytes: &[u8], probes: &[Value]) -> Result<Seen, String> {
+  let st = img.storage_with(None, &[]);
+  let root = img.root.clone();
+  let path = img.files[file_idx].1.clone();
+  let r = vcore::catch(move || -> Result<Result<Vec<Value>, String>, String> {
+    let idx = open_image(&root, st.clone()).map_err(|e| format!("MACHINERY open of the intact image: {e:#}"))?;
+    {
+      let reader = idx.reader().map_err(|e| format!("MACHINERY reader of the intact image: {e:#}"))?;
+      for (i, p) in probes.iter().enumerate() {
+        let res = reader.search(&req(p.clone())).map_err(|e| format!("MACHINERY probe {i} on the intact image: {e:#}"))?;
+        if !same_probe(&normalize(&res), &base_results[i]) {
+          return Err(format!("MACHINERY probe {i} on the intact image differs from the baseline"));
+        }
+      }
+    }
+    st.write_all(&path, bytes).map_err(|e| format!("MACHINERY write_all: {e:#}"))?;
+    let second = || -> Result<Vec<Value>, String> {
+      let reader = idx.reader().map_err(|e| format!("reader: {e:#}"))?;
+      let mut out = Vec::new();
+      for (i, p) in probes.iter().enumerate() {
+        let res = reader.search(&req(p.clone())).map_err(|e| format!("search probe {i}: {e:#}"))?;
+        out.push(normalize(&res));
+      }
+      Ok(out)
+    };
+    Ok(second())
+  });
+  match r {
+    Err(p) => Ok(Seen::Panic(p)),
+    Ok(Err(m)) => Err(m),
+    Ok(Ok(Err(e))) => Ok(Seen::Detected(e)),
+    Ok(Ok(Ok(v))) => Ok(Seen::Results(v)),
+  }
+}
+
 fn pending_strings(st: &InMemoryStorage, root: &Path) -> Result<Result<Vec<String>, String>, String> {
   vcore::catch(|| Wal::last_pending_ops(st, &root.join("wal.log")).map(|v| v.iter().map(|e| format!("{e:?}")).collect::<Vec<_>>()).map_err(|e| format!("{e:#}")))
 }
@@ -403,7 +449,7 @@ struct Failure {
 }
 
 /// Evaluate one mutant. Returns (outcome class for coverage, failure).
-fn evaluate(img: &Image, base: &Baseline, probes: &[Value], m: &Mutation) -> (String, Option<Failure>) {
+fn evaluate(img: &Image, base: &Baseline, probes: &[Value], m: &Mutation, live: bool) -> (String, Option<Failure>) {
   let label = img.files[m.file()].0.clone();
   let kind = if label == "MANIFEST.json" {
     "manifest".to_string()
@@ -413,7 +459,16 @@ fn evaluate(img: &Image, base: &Baseline, probes: &[Value], m: &Mutation) -> (St
     label.split('.').nth(1).unwrap_or("?").to_string()
   };
   let bytes = m.apply(img);
-  let seen = observe(img, img.storage_with(Some(m.file()), &bytes), probes);
+  let seen = if live {
+    match observe_live(img, &base.results, m.file(), &bytes, probes) {
+      Ok(s) => s,
+      Err(msg) => return (format!("{kind}:machinery"), Some(Failure { sig: None, what: msg, class: "machinery".into() })),
+    }
+  } else {
+    observe(img, img.storage_with(Some(m.file()), &bytes), probes)
+  };
+  let how = if live { "the index was opened and read while intact, then the file was damaged; a new reader() on the SAME handle" } else { "the damaged index" };
+  let mode = if live { "live-" } else { "" };
   let mut failure: Option<Failure> = None;
   let class;
   match &seen {
@@ -422,7 +477,7 @@ fn evaluate(img: &Image, base: &Baseline, probes: &[Value], m: &Mutation) -> (St
     }
     Seen::Panic(p) => {
       class = "panic".to_string();
-      failure = Some(Failure { sig: None, what: format!("open/reader/search panicked: {p}"), class: format!("{kind}-panic") });
+      failure = Some(Failure { sig: None, what: format!("{how}: open/reader/search panicked: {p}"), class: format!("{mode}{kind}-panic") });
     }
     Seen::Results(v) => {
       let diff = v.iter().zip(&base.results).position(|(a, b)| !same_probe(a, b));
@@ -430,7 +485,7 @@ fn evaluate(img: &Image, base: &Baseline, probes: &[Value], m: &Mutation) -> (St
         None => class = "identical".to_string(),
         Some(i) => {
           class = "silently-different".to_string();
-          let (sig, loc) = if kind == "manifest" {
+          let (sig, loc) = if kind == "manifest" && !live {
             match serde_json::from_slice::<Value>(&bytes).ok().and_then(|mv| json_diff_path(&base.manifest, &mv, "")) {
               Some(p) => (manifest_signature(&p), format!(" (manifest location changed: {p})")),
               None => (None, String::new()),
@@ -440,14 +495,14 @@ fn evaluate(img: &Image, base: &Baseline, probes: &[Value], m: &Mutation) -> (St
           };
           failure = Some(Failure {
             sig,
-            what: format!("index opens and searches without error but probe {i} {} returns {} instead of the baseline {}{loc}", probes[i], v[i], base.results[i]),
-            class: format!("{kind}-silent{}", loc),
+            what: format!("{how} opens and searches without error but probe {i} {} returns {} instead of the baseline {}{loc}", probes[i], v[i], base.results[i]),
+            class: format!("{mode}{kind}-silent{}", loc),
           });
         }
       }
     }
   }
-  if kind == "wal" && failure.is_none() {
+  if kind == "wal" && failure.is_none() && !live {
     let st = img.storage_with(Some(m.file()), &bytes);
     match pending_strings(&st, &img.root) {
       Err(p) => failure = Some(Failure { sig: None, what: format!("Wal::last_pending_ops panicked: {p}"), class: "wal-panic".into() }),
@@ -474,21 +529,218 @@ fn evaluate(img: &Image, base: &Baseline, probes: &[Value], m: &Mutation) -> (St
       }
     }
   }
-  (format!("{kind}:{class}"), failure)
+  (format!("{}{kind}:{class}", if live { "live-" } else { "" }), failure)
+}
+
+// ---------------------------------------------------------------------------------------------
+// Worker subprocesses
+
+const WORKER_KEY: &str = "c17_worker";
+
+fn intern_sig(s: Option<&str>) -> Option<&'static str> {
+  let s = s?;
+  ["segments[].doc_count", "segments[].deleted_docs", "segments[].max_doc_id", "segments[].generation", "segments[].avg_field_lengths", "segments[].blockmax", "segments[].id", "schema"]
+    .iter()
+    .filter_map(|p| manifest_signature(p))
+    .find(|k| *k == s)
+}
+
+/// One item = (live?, mutation). Compact wire form: [live, file, 0 xor | 1 truncate, offset or len, mask].
+fn item_to_json(live: bool, m: &Mutation) -> Value {
+  match m {
+    Mutation::Xor { file, offset, mask } => json!([live as u8, file, 0, offset, mask]),
+    Mutation::Truncate { file, len } => json!([live as u8, file, 1, len, 0]),
+  }
+}
+
+fn item_from_json(v: &Value) -> (bool, Mutation) {
+  let g = |i: usize| v[i].as_u64().unwrap_or(0) as usize;
+  let live = g(0) == 1;
+  if g(2) == 0 {
+    (live, Mutation::Xor { file: g(1), offset: g(3), mask: g(4) as u8 })
+  } else {
+    (live, Mutation::Truncate { file: g(1), len: g(3) })
+  }
+}
+
+fn worker(spec: &Value) -> i32 {
+  let img = Image::from_json(&spec["image"]);
+  let probes: Vec<Value> = spec["probes"].as_array().cloned().unwrap_or_default();
+  let out = std::io::stdout();
+  let base = match baseline(&img, &probes) {
+    Ok(b) => b,
+    Err(e) => {
+      let _ = writeln!(out.lock(), "X {e}");
+      return 2;
+    }
+  };
+  for (i, it) in spec["items"].as_array().cloned().unwrap_or_default().iter().enumerate() {
+    let (live, m) = item_from_json(it);
+    {
+      let mut o = out.lock();
+      let _ = writeln!(o, "S {i}");
+      let _ = o.flush();
+    }
+    let (class, failure) = evaluate(&img, &base, &probes, &m, live);
+    let f = failure.map(|f| json!({"sig": f.sig, "what": f.what, "class": f.class}));
+    let mut o = out.lock();
+    let _ = writeln!(o, "D {i} {}", json!({"c": class, "f": f}));
+  }
+  let mut o = out.lock();
+  let _ = writeln!(o, "E");
+  let _ = o.flush();
+  0
+}
+
+fn cpu_seconds(pid: u32) -> f64 {
+  let Ok(stat) = std::fs::read_to_string(format!("/proc/{pid}/stat")) else { return 0.0 };
+  let Some(rest) = stat.rfind(')').map(|i| &stat[i + 1..]) else { return 0.0 };
+  let f: Vec<&str> = rest.split_whitespace().collect();
+  let ticks: u64 = f.get(11).and_then(|x| x.parse::<u64>().ok()).unwrap_or(0) + f.get(12).and_then(|x| x.parse::<u64>().ok()).unwrap_or(0);
+  ticks as f64 / (unsafe { libc::sysconf(libc::_SC_CLK_TCK) }.max(1) as f64)
+}
+
+enum Line {
+  S(usize),
+  D(usize, Value),
+  E,
+  X(String),
+}
+
+static BATCH_SEQ: AtomicUsize = AtomicUsize::new(0);
+
+/// Evaluate `items` in worker processes; a worker that dies or burns 20 s of CPU on one mutant is
+/// attributed to that mutant (reported as a failure) and restarted on the rest.
+fn run_items(tier: &str, scratch: &Path, img: &Image, img_json: &Value, probes: &[Value], items: &[(bool, Mutation)], stop: &AtomicBool) -> Vec<Option<(String, Option<Failure>)>> {
+  let mut results: Vec<Option<(String, Option<Failure>)>> = (0..items.len()).map(|_| None).collect();
+  let exe = std::env::current_exe().expect("current_exe");
+  let mut pos = 0usize;
+  while pos < items.len() && !stop.load(Ordering::Relaxed) {
+    let file = scratch.join(format!("batch{}.json", BATCH_SEQ.fetch_add(1, Ordering::Relaxed)));
+    let wire: Vec<Value> = items[pos..].iter().map(|(l, m)| item_to_json(*l, m)).collect();
+    std::fs::write(&file, json!({WORKER_KEY: {"image": img_json, "probes": probes, "items": wire}}).to_string()).expect("write batch file");
+    let err_path = file.with_extension("err");
+    let err_file = std::fs::File::create(&err_path).expect("stderr file");
+    let mut child = Command::new(&exe)
+      .args(["C17", tier, "--replay"])
+      .arg(&file)
+      .stdin(Stdio::null())
+      .stdout(Stdio::piped())
+      .stderr(Stdio::from(err_file))
+      .spawn()
+      .unwrap_or_else(|e| vcore::ev::machinery_failure(&format!("C17: cannot spawn worker: {e}")));
+    let pid = child.id();
+    let stdout = child.stdout.take().unwrap();
+    let (tx, rx) = mpsc::channel::<Line>();
+    let reader = std::thread::spawn(move || {
+      for line in BufReader::new(stdout).lines() {
+        let Ok(line) = line else { break };
+        let msg = if let Some(r) = line.strip_prefix("S ") {
+          r.trim().parse().ok().map(Line::S)
+        } else if let Some(r) = line.strip_prefix("D ") {
+          let mut it = r.splitn(2, ' ');
+          match (it.next().and_then(|x| x.parse().ok()), it.next().and_then(|x| serde_json::from_str(x).ok())) {
+            (Some(i), Some(v)) => Some(Line::D(i, v)),
+            _ => None,
+          }
+        } else if let Some(r) = line.strip_prefix("X ") {
+          Some(Line::X(r.to_string()))
+        } else if line.trim() == "E" {
+          Some(Line::E)
+        } else {
+          None
+        };
+        if let Some(m) = msg {
+          if tx.send(m).is_err() {
+            break;
+          }
+        }
+      }
+    });
+    let mut cur: Option<(usize, Instant, f64)> = None;
+    let mut finished = false;
+    let mut advanced_to = pos;
+    let describe = |i: usize| {
+      let (live, m) = &items[i];
+      format!("{}{}", if *live { "[damage under a live handle] " } else { "" }, m.to_json(img))
+    };
+    loop {
+      match rx.recv_timeout(Duration::from_millis(50)) {
+        Ok(Line::S(i)) => cur = Some((i, Instant::now(), cpu_seconds(pid))),
+        Ok(Line::D(i, v)) => {
+          let f = if v["f"].is_null() { None } else { Some(Failure { sig: intern_sig(v["f"]["sig"].as_str()), what: v["f"]["what"].as_str().unwrap_or("").to_string(), class: v["f"]["class"].as_str().unwrap_or("").to_string() }) };
+          results[pos + i] = Some((v["c"].as_str().unwrap_or("?").to_string(), f));
+          advanced_to = pos + i + 1;
+          cur = None;
+        }
+        Ok(Line::E) => finished = true,
+        Ok(Line::X(m)) => vcore::ev::machinery_failure(&format!("C17 worker: {m}")),
+        Err(mpsc::RecvTimeoutError::Timeout) => {
+          if let Some((i, t0, c0)) = cur {
+            let cpu = cpu_seconds(pid) - c0;
+            if cpu > 20.0 || t0.elapsed() > Duration::from_secs(300) {
+              unsafe {
+                libc::kill(pid as i32, libc::SIGKILL);
+              }
+              let _ = child.wait();
+              results[pos + i] = Some(("hang".into(), Some(Failure { sig: None, what: format!("{}: no result after {:.0} s of CPU time ({:.0} s wall)", describe(pos + i), cpu, t0.elapsed().as_secs_f64()), class: "hang".into() })));
+              advanced_to = pos + i + 1;
+              break;
+            }
+          }
+        }
+        Err(mpsc::RecvTimeoutError::Disconnected) => {
+          let status = child.wait().ok();
+          if let Some((i, _, _)) = cur {
+            use std::os::unix::process::ExitStatusExt;
+            let err = std::fs::read_to_string(&err_path).unwrap_or_default();
+            let line = err.lines().find(|l| l.contains("memory allocation of") || l.contains("overflowed its stack")).or_else(|| err.trim().lines().last()).unwrap_or("").to_string();
+            let how = status.map(|s| match s.signal() {
+              Some(sig) => format!("killed by signal {sig} (6 = abort, 11 = segfault)"),
+              None => format!("exited with {:?}", s.code()),
+            });
+            results[pos + i] = Some(("died".into(), Some(Failure { sig: None, what: format!("{}: the process evaluating this mutant was {}; stderr: {:?}", describe(pos + i), how.unwrap_or_default(), line), class: "process-died".into() })));
+            advanced_to = pos + i + 1;
+          } else if !finished {
+            vcore::ev::machinery_failure(&format!("C17: worker exited between mutants without finishing ({status:?})"));
+          }
+          break;
+        }
+      }
+    }
+    let _ = reader.join();
+    let _ = std::fs::remove_file(&file);
+    let _ = std::fs::remove_file(&err_path);
+    if finished && cur.is_none() {
+      break;
+    }
+    if advanced_to == pos {
+      vcore::ev::machinery_failure("C17: worker made no progress");
+    }
+    pos = advanced_to;
+  }
+  results
 }
 
 pub fn run(ctx: &Ctx) -> i32 {
-  let mut rep = Reporter::new("C17", ctx.tier, "exploration");
+  let replay_json: Option<Value> = ctx.replay.as_ref().map(|p| serde_json::from_slice(&std::fs::read(p).expect("replay file")).expect("json"));
+  if let Some(v) = &replay_json {
+    if let Some(spec) = v.get(WORKER_KEY) {
+      return worker(spec);
+    }
+  }
+  let mut rep = Reporter::new("C17", ctx.tier, "fault_enumeration");
   let quick = ctx.tier.is_quick();
-  if let Some(path) = &ctx.replay {
+  let scratch = Scratch::new("c17");
+  let stop = AtomicBool::new(false);
+  if let (Some(path), Some(v)) = (&ctx.replay, &replay_json) {
     rep.set_replaying(true);
-    let v: Value = serde_json::from_slice(&std::fs::read(path).expect("replay file")).expect("json");
     let cs = &v["case"];
     let img = Image::from_json(&cs["image"]);
     let probes: Vec<Value> = cs["world"]["probes"].as_array().cloned().unwrap_or_default();
-    let base = baseline(&img, &probes).unwrap_or_else(|e| vcore::ev::machinery_failure(&format!("C17 replay: {e}")));
     let m = Mutation::from_json(&img, &cs["mutation"]);
-    let once = || evaluate(&img, &base, &probes, &m).1.map(|f| f.what);
+    let live = cs["live_handle"].as_bool().unwrap_or(false);
+    let once = || run_items(ctx.tier.name(), &scratch.path, &img, &cs["image"], &probes, &[(live, m.clone())], &stop).pop().flatten().and_then(|r| r.1).map(|f| f.what);
     let (a, b) = (once(), once());
     if a.is_some() != b.is_some() {
       vcore::ev::machinery_failure("NONDETERMINISM on replay");
@@ -505,11 +757,10 @@ pub fn run(ctx: &Ctx) -> i32 {
     };
   }
 
-  let deadline = if quick { 30.0 } else { 840.0 };
-  let timed_out = AtomicBool::new(false);
-  let evals = AtomicU64::new(0);
-  let outcome_counts: Mutex<BTreeMap<String, u64>> = Mutex::new(BTreeMap::new());
-  let failure_classes: Mutex<BTreeMap<String, u64>> = Mutex::new(BTreeMap::new());
+  let deadline = if quick { 28.0 } else { 840.0 };
+  let mut evals = 0u64;
+  let mut outcome_counts: BTreeMap<String, u64> = BTreeMap::new();
+  let mut failure_classes: BTreeMap<String, u64> = BTreeMap::new();
   let mut world_stats = Vec::new();
   let mut firsts: Vec<(Option<&'static str>, String, Value)> = Vec::new();
   let mut rest: Vec<(Option<&'static str>, String, Value)> = Vec::new();
@@ -528,38 +779,67 @@ pub fn run(ctx: &Ctx) -> i32 {
       vcore::ev::machinery_failure(&format!("C17 world {}: baseline probes do not see the committed documents ({got:?} vs {want:?})", w["name"]));
     }
     let muts = all_mutations(&img, quick);
-    world_stats.push(json!({"world": w["name"], "files": img.files.iter().map(|f| json!({"file": f.0, "bytes": f.2.len()})).collect::<Vec<_>>(), "mutants": muts.len()}));
-    let results: Vec<Option<Failure>> = muts
-      .par_iter()
-      .map(|m| {
-        if rep.elapsed_s() > deadline {
-          timed_out.store(true, Ordering::Relaxed);
-          return None;
+    world_stats.push(json!({"world": w["name"], "files": img.files.iter().map(|f| json!({"file": f.0, "bytes": f.2.len()})).collect::<Vec<_>>(), "fresh_mutants": muts.len()}));
+    // items: every mutant freshly opened, then every mutant applied under a live handle
+    // (a live handle keeps the manifest in memory and a reader never touches the log, so the
+    // live mode covers the segment files; quick: xor mask 0x01 and every truncation only)
+    let seg_file = |m: &Mutation| !matches!(img.files[m.file()].0.as_str(), "MANIFEST.json" | "wal.log");
+    let live_pick = |m: &Mutation| seg_file(m) && (!quick || matches!(m, Mutation::Truncate { .. } | Mutation::Xor { mask: 0x01, .. }));
+    let items: Vec<(bool, Mutation)> = muts.iter().map(|m| (false, m.clone())).chain(muts.iter().filter(|m| live_pick(m)).map(|m| (true, m.clone()))).collect();
+    let live_count = items.iter().filter(|i| i.0).count();
+    let img_json = img.to_json();
+    let nthreads = vcore::threads().max(2);
+    if let Some(ws) = world_stats.last_mut() {
+      ws["live_handle_mutants"] = json!(live_count);
+    }
+    let chunk = items.len().div_ceil(nthreads).max(1);
+    let chunks: Vec<(usize, &[(bool, Mutation)])> = items.chunks(chunk).enumerate().map(|(k, c)| (k * chunk, c)).collect();
+    let results: Mutex<Vec<Option<(String, Option<Failure>)>>> = Mutex::new((0..items.len()).map(|_| None).collect());
+    let next = AtomicUsize::new(0);
+    std::thread::scope(|sc| {
+      for _ in 0..nthreads {
+        sc.spawn(|| loop {
+          let j = next.fetch_add(1, Ordering::Relaxed);
+          if j >= chunks.len() || stop.load(Ordering::Relaxed) {
+            break;
+          }
+          if rep.elapsed_s() > deadline {
+            stop.store(true, Ordering::Relaxed);
+            break;
+          }
+          let (from, c) = chunks[j];
+          let out = run_items(ctx.tier.name(), &scratch.path, &img, &img_json, &probes, c, &stop);
+          let mut r = results.lock();
+          for (k, o) in out.into_iter().enumerate() {
+            r[from + k] = o;
+          }
+        });
+      }
+    });
+    nontrivial += items.len() as u64;
+    let results = results.into_inner();
+    for ((live, m), r) in items.iter().zip(results) {
+      let Some((class, failure)) = r else { continue };
+      evals += 1;
+      *outcome_counts.entry(class).or_insert(0) += 1;
+      if !rep.sample_full() && matches!(m, Mutation::Xor { offset: 40, mask: 1, .. }) {
+        rep.sample(json!({"world": w["name"], "live_handle": live, "mutation": m.to_json(&img), "failed": failure.is_some()}));
+      }
+      if let Some(f) = failure {
+        if f.class == "machinery" {
+          vcore::ev::machinery_failure(&format!("C17: {}", f.what));
         }
-        let (class, failure) = evaluate(&img, &base, &probes, m);
-        evals.fetch_add(1, Ordering::Relaxed);
-        *outcome_counts.lock().entry(class).or_insert(0) += 1;
-        if !rep.sample_full() && matches!(m, Mutation::Xor { offset: 40, .. }) {
-          rep.sample(json!({"world": w["name"], "mutation": m.to_json(&img), "failed": failure.is_some()}));
-        }
-        failure
-      })
-      .collect();
-    nontrivial += muts.len() as u64;
-    for (m, f) in muts.iter().zip(results) {
-      if let Some(f) = f {
         let key = format!("{} [{}]", f.class, f.sig.unwrap_or("-"));
-        let mut fc = failure_classes.lock();
-        let n = fc.entry(key).or_insert(0);
+        let n = failure_classes.entry(key).or_insert(0);
         *n += 1;
         let item = (
           f.sig,
-          format!("world [{}: commits {} deleted {} pending {}] mutation {} : {}", w["name"].as_str().unwrap_or(""), w["commits"], w["deleted"], w["pending"], m.to_json(&img), f.what),
-          json!({"engine": "corruptmc", "world": w, "image": img.to_json(), "mutation": m.to_json(&img)}),
+          format!("world [{}: commits {} deleted {} pending {}] mutation {}{} : {}", w["name"].as_str().unwrap_or(""), w["commits"], w["deleted"], w["pending"], m.to_json(&img), if *live { " applied under a live Index handle" } else { "" }, f.what),
+          json!({"engine": "corruptmc", "world": w, "image": img_json, "mutation": m.to_json(&img), "live_handle": live}),
         );
         if *n == 1 {
           firsts.push(item);
-        } else {
+        } else if rest.len() < 2000 {
           rest.push(item);
         }
       }
@@ -569,20 +849,20 @@ pub fn run(ctx: &Ctx) -> i32 {
   for (sig, what, case) in firsts.into_iter().chain(rest) {
     rep.fail(sig, &what, case);
   }
-  rep.add_evals(evals.load(Ordering::Relaxed));
-  let to = timed_out.load(Ordering::Relaxed);
-  let oc = outcome_counts.lock().clone();
-  let distinct: BTreeSet<&str> = oc.keys().map(|k| k.split(':').nth(1).unwrap_or("")).collect();
+  rep.add_evals(evals);
+  let to = stop.load(Ordering::Relaxed);
+  let distinct: BTreeSet<&str> = outcome_counts.keys().map(|k| k.rsplit(':').next().unwrap_or("")).collect();
   if distinct.len() < 2 {
     vcore::ev::machinery_failure("C17: fewer than 2 distinct outcomes observed (vacuous)");
   }
   let cov = vcore::cov! {
     "distinct_nontrivial" => nontrivial,
-    "rule" => "mutants = per world, for every index file (MANIFEST.json, wal.log, and the meta/terms/post/docs/fast file of every segment) every byte offset x xor mask (quick {0x01,0x80,0xFF}; thorough every single-bit mask and 0xFF) and every truncation length 0..len-1; every mutant changes exactly one file and is non-trivial (its bytes differ from the committed image). Each is loaded into a fresh InMemoryStorage and opened; probes = match_all with stored fields, a term query with scores, and a filter+sort+aggregation request over fast fields.",
+    "rule" => "mutants = per world, for every index file (MANIFEST.json, wal.log, and the meta/terms/post/docs/fast file of every segment) every byte offset x xor mask (quick {0x01,0x80,0xFF}; thorough every single-bit mask and 0xFF) and every truncation length 0..len-1; every mutant changes exactly one file and is non-trivial (its bytes differ from the committed image). Every mutant is evaluated freshly: loaded into a fresh InMemoryStorage and opened. Every mutant of a segment file (quick: xor mask 0x01 and truncations only) is also evaluated under a live handle: the intact image is opened and read through reader() first (results must equal the baseline), then the damaged bytes are written into the same storage and reader() is called again on the same Index handle. Probes = match_all with stored fields, a term query with scores, and a filter+sort+aggregation request over fast fields. Mutants run in worker subprocesses so that aborts and hangs are attributed to the mutant.",
+    "modes" => ["fresh index handle", "damage under a live index handle"],
     "xor_masks" => masks(quick),
     "worlds" => world_stats,
-    "outcome_counts" => oc,
-    "failure_classes" => failure_classes.lock().clone(),
+    "outcome_counts" => outcome_counts,
+    "failure_classes" => failure_classes,
     "distinct_observed_outcomes" => distinct.len(),
     "cap_hit" => if to { Some(format!("wall budget {deadline}s")) } else { None },
     "exhaustive" => !to,
@@ -594,6 +874,7 @@ pub fn run(ctx: &Ctx) -> i32 {
       "corruptions of fields that no probe can observe (uuid, committed_at, checksum-map keys) are accepted when all probe results are identical".into(),
       "single-file corruptions only; multi-byte edits other than truncation are not enumerated".into(),
       "for wal.log an Err from last_pending_ops / writer() / commit is accepted; otherwise the recovered operations must be a prefix of the logged ones and the committed result must equal that of an intact prefix".into(),
+      "live-handle mode: a reader that was opened BEFORE the damage is not re-examined; only readers opened after the damage must detect it or be unaffected (MANIFEST.json damage is invisible to a live handle, which keeps the manifest in memory)".into(),
     ],
   )
 }
